@@ -140,9 +140,21 @@ func VerifC06Recurse() {
 	if vKnown("hash.alias") {
 		vAssumeNoHashAlias(a, b)
 	}
-	d := a.Diff(b)
+	var opts []Option
+	eps := 0.0
+	if vParam("PREC", 0) == 1 {
+		// the same claims with a Precision option in force (numbers within eps are equal:
+		// then the container need not be descended into, but whatever hunks there are must
+		// still carry the right context)
+		eps = vF64()
+		vAssume(eps >= 0)
+		opts = []Option{Precision(eps)}
+	}
+	d := a.Diff(b, opts...)
 	vObserve("diff", d.Render())
-	vAssert(len(d) > 0, "different documents give an empty diff")
+	if !refEq(a, b, modeList, eps) {
+		vAssert(len(d) > 0, "different documents give an empty diff")
+	}
 	descended := false
 	cur := []JsonNode(vClone(a).(jsonArray))
 	for _, h := range d {
@@ -167,7 +179,9 @@ func VerifC06Recurse() {
 			vAssert(refKind(x) < 5, "container at the same position re-added instead of recursed into")
 		}
 	}
-	vAssert(descended, "no hunk descends into the changed container")
+	if !refEq(a[p], b[p], modeList, eps) {
+		vAssert(descended, "no hunk descends into the changed container")
+	}
 	vCover("c06.recurse")
 }
 
